@@ -56,6 +56,8 @@ type FieldDef struct {
 	Ext  bool     `json:"ext"`
 	Req  []FSel   `json:"req"`
 	Prov []FSel   `json:"prov"`
+	// Inacc: @inaccessible (not part of the client schema; still usable as key / @requires input)
+	Inacc bool `json:"inacc"`
 }
 
 type KeyDef struct {
@@ -65,7 +67,7 @@ type KeyDef struct {
 
 type TypeDef struct {
 	Name    string     `json:"name"`
-	Kind    string     `json:"kind"` // OBJECT | INTERFACE | UNION
+	Kind    string     `json:"kind"` // OBJECT | INTERFACE | UNION | ENUM (values in Members) | INPUT (fields in Fields) | SCALAR
 	Keys    []KeyDef   `json:"keys"`
 	Impl    []string   `json:"impl"`
 	Members []string   `json:"members"`
@@ -157,7 +159,7 @@ var builtinScalars = map[string]bool{"ID": true, "String": true, "Int": true, "B
 func SubgraphSDL(e *Entry, idx int) string {
 	sg := &e.Sgs[idx]
 	var sb strings.Builder
-	sb.WriteString(`extend schema @link(url: "https://specs.apollo.dev/federation/v2.5", import: ["@key", "@external", "@requires", "@provides", "@shareable"])` + "\n\n")
+	sb.WriteString(`extend schema @link(url: "https://specs.apollo.dev/federation/v2.5", import: ["@key", "@external", "@requires", "@provides", "@shareable", "@inaccessible"])` + "\n\n")
 	for i := range sg.Types {
 		td := &sg.Types[i]
 		printType(&sb, td, true, func(f *FieldDef) bool { return sharedElsewhere(e, idx, td, f) })
@@ -185,7 +187,11 @@ func sharedElsewhere(e *Entry, idx int, td *TypeDef, f *FieldDef) bool {
 // SupergraphSDL prints the client schema of the merged supergraph (no federation directives).
 func SupergraphSDL(e *Entry) string {
 	var sb strings.Builder
-	sb.WriteString("schema {\n  query: Query\n}\n\n")
+	sb.WriteString("schema {\n  query: Query\n")
+	if FindType(e.Super, "Mutation") != nil {
+		sb.WriteString("  mutation: Mutation\n")
+	}
+	sb.WriteString("}\n\n")
 	for i := range e.Super {
 		printType(&sb, &e.Super[i], false, nil)
 	}
@@ -196,6 +202,19 @@ func printType(sb *strings.Builder, td *TypeDef, directives bool, shareable func
 	switch td.Kind {
 	case "UNION":
 		fmt.Fprintf(sb, "union %s = %s\n\n", td.Name, strings.Join(td.Members, " | "))
+		return
+	case "ENUM":
+		fmt.Fprintf(sb, "enum %s {\n  %s\n}\n\n", td.Name, strings.Join(td.Members, "\n  "))
+		return
+	case "SCALAR":
+		fmt.Fprintf(sb, "scalar %s\n\n", td.Name)
+		return
+	case "INPUT":
+		fmt.Fprintf(sb, "input %s {\n", td.Name)
+		for i := range td.Fields {
+			fmt.Fprintf(sb, "  %s: %s\n", td.Fields[i].Name, td.Fields[i].Type.String())
+		}
+		sb.WriteString("}\n\n")
 		return
 	case "INTERFACE":
 		fmt.Fprintf(sb, "interface %s", td.Name)
@@ -239,6 +258,9 @@ func printType(sb *strings.Builder, td *TypeDef, directives bool, shareable func
 			if shareable != nil && shareable(f) {
 				sb.WriteString(" @shareable")
 			}
+			if f.Inacc {
+				sb.WriteString(" @inaccessible")
+			}
 		}
 		sb.WriteString("\n")
 	}
@@ -246,4 +268,7 @@ func printType(sb *strings.Builder, td *TypeDef, directives bool, shareable func
 }
 
 // IsLeafType: a named type that is not a composite type of the given schema (scalars; enums are not modelled).
-func IsLeafType(types []TypeDef, name string) bool { return FindType(types, name) == nil }
+func IsLeafType(types []TypeDef, name string) bool {
+	td := FindType(types, name)
+	return td == nil || (td.Kind != "OBJECT" && td.Kind != "INTERFACE" && td.Kind != "UNION")
+}
